@@ -44,19 +44,19 @@ type RuleStat struct {
 
 // Report collects obligations for one property run.
 type Report struct {
-	Property string
-	Tier     string
-	Obls     []Obligation
-	rules    map[string]*RuleStat
-	order    []string
-	Errors   []string // cannot-decide conditions (unresolved anchors, floors)
-	Extra    map[string]interface{}
-	Explain  string
-	NotDecided string
+	Property    string
+	Tier        string
+	Obls        []Obligation
+	rules       map[string]*RuleStat
+	order       []string
+	Errors      []string // cannot-decide conditions (unresolved anchors, floors)
+	Extra       map[string]interface{}
+	Explain     string
+	NotDecided  string
 	Assumptions []string
-	Stats    map[string]int
-	Start    time.Time
-	alias    map[string]string
+	Stats       map[string]int
+	Start       time.Time
+	alias       map[string]string
 	// Filter, when set, drops obligations it rejects (used while a rule body
 	// shared with another property runs, to keep only the relevant part).
 	Filter func(Obligation) bool
